@@ -46,9 +46,14 @@ def run(ctx):
                       "untagged token `|`, it has looked one character ahead and found no second `|` (and emits `||` "
                       "otherwise) - a `|` token per character re-renders `echo a||echo b` as `echo a | | echo b`, which "
                       "runs nothing, while -c (where the list splitter runs first) prints a")
+    ctx.rule("R16-7", "the renderer re-escapes only what the tokenizer unescaped: the tokenizer keeps a backslash verbatim in an "
+                      "untagged word while it is inside embedded quotes (`NAME=\"a\\.b\"`, `x=`..\\..``) - a push of the "
+                      "character under `c == '\\\\'` - so tokens_to_line must not double every backslash of an untagged token; "
+                      "the two sides have to agree (today: neither doubles; the lost `a\\\\b` case is the open R16-2 finding)")
     for crate in ctx.crates:
         funnel_rule(ctx, crate)
         operator_after_quote_rule(ctx, crate)
+        backslash_agreement_rule(ctx, crate)
         double_pipe_rule(ctx, crate, "R16-6")
         renderer_rule(ctx, crate)
         dq_roundtrip_rule(ctx, crate)
@@ -327,3 +332,40 @@ def double_pipe_rule(ctx, crate, rule):
                detail=None if ok else "`a||b` without blanks (or `'q'||b`) is tokenized as `|`, `|`: on the script path the line "
                "is re-rendered with two pipes and nothing runs")
         k += 1
+
+
+def backslash_agreement_rule(ctx, crate):
+    from .c02 import dom_facts
+    from .c01 import TokenizerModel
+    pl = crate.fn("parsers::parser_line::parse_line")
+    tl = crate.fn("parsers::parser_line::tokens_to_line")
+    if not ctx.require(pl is not None and tl is not None, "R16-7", "R16-7|anchor", "parse_line / tokens_to_line not found"):
+        return
+    M = TokenizerModel(pl)
+    if not ctx.require(M.ok, "R16-7", "R16-7|%s|model" % pl.path, M.why or "tokenizer loop not recognised", pl.path):
+        return
+    # tokenizer: a push of the current character reached under `c == '\\'` (kept verbatim)
+    verbatim = []
+    for bb in sorted(M.pushes_c):
+        for a, v in dom_facts(pl, bb, within=M.blocks):
+            a2 = strip_sites(a)
+            if a2[0] == "bin" and a2[1] == "Eq" and v is True and a2[2] == M.cexpr and mir.const_char(a2[3]) == "\\":
+                verbatim.append(bb)
+    # renderer: backslashes of an untagged token doubled
+    doubles = []
+    for bb, t, c in tl.calls():
+        if last_seg(c) in ("replace", "replacen") and "str" in c:
+            a = tl.call_args(bb)
+            frm = (mir.const_char(a[1]) or mir.const_str(tl.expand_vars(strip_sites(a[1])))) if len(a) > 1 else None
+            to = mir.const_str(tl.expand_vars(strip_sites(a[2]))) if len(a) > 2 else None
+            if frm == "\\" and to == "\\\\":
+                untagged = any(strip_sites(x)[0] == "call" and last_seg(strip_sites(x)[1]) == "is_empty" and v is True
+                               for x, v in dom_facts(tl, bb))
+                if untagged:
+                    doubles.append(bb)
+    ok = not (verbatim and doubles)
+    ctx.ob("R16-7", tl.path, "backslashes of untagged tokens: tokenizer keeps some verbatim (%d site(s)), renderer doubles them "
+                             "(%d site(s))" % (len(verbatim), len(doubles)), ok,
+           key="R16-7|%s|untagged-backslash-doubled" % tl.path, where=tl.loc((doubles or [0])[0]), crate=crate.kind,
+           detail=None if ok else "a backslash the tokenizer never halved (inside the embedded quotes of `NAME=\"a\\.b\"`) is written "
+           "back twice: the script path passes `a\\\\.b` where -c passes `a\\.b`")
